@@ -213,6 +213,22 @@ def generate(repo):
     out.append('Definition collect_handles_reads : list (string * list string) := [\n  %s].\n' % ';\n  '.join(
         '(%s, %s)' % (coq_string(v), coq_list(fs)) for v, fs in rows))
 
+    # ---- payloads the Coq AST keeps opaque: the validator must not look inside them
+    cwv = fn_body(common, 'collect_where_variables', G)
+    filter_skipped = bool(re.search(r'WhereClause::Filter\s*\{\s*\.\.\s*\}\s*=>\s*\{\s*\}', cwv))
+    # every function of kml.rs from the guards down (everything after `fn update_action`), i.e. the tree validator
+    vstart = kml.find('fn bound_kind')
+    validator_src = kml[vstart:] if vstart >= 0 else ''
+    if not validator_src:
+        lost(G, 'validator region of kml.rs')
+    inspected = sorted(set(re.findall(r'\b(FilterExpression|FilterOperand|FilterFunction|AsOf|HopRange|KipValue::Object|KipValue::Number|Number::)\b', validator_src)))
+    # WhereClause::Filter may be named only in arms that ignore its payload
+    filter_arms = re.findall(r'WhereClause::Filter\s*\{([^}]*)\}', validator_src)
+    filter_payload_read = [a.strip() for a in filter_arms if a.strip() not in ('..', '')]
+    out.append('(* opaque payloads (FILTER expressions, AsOf, hop ranges, numbers, KipValue objects): what the tree validator names of them *)\n')
+    out.append('Definition opaque_payloads_inspected : list string := %s.\n' % coq_list(inspected + filter_payload_read))
+    out.append('Definition filter_binds_nothing : bool := %s.\n' % ('true' if filter_skipped else 'false'))
+
     # ---- validate_command arms
     vcmd = fn_body(parser, 'validate_command', G)
     arms = [(' '.join(p.split()), a) for p, a in match_arms(vcmd)]
